@@ -137,15 +137,26 @@ def run(ctx):
         ctx.rng.shuffle(d2)
         d2 = d2[:12000]          # a seeded third of all two-operation behaviours (cost: ~10 ms per behaviour, manifest fsyncs)
     sims = []
-    for depth, num in (((3, 300), (6, 150)) if quick else ((6, 400), (8, 400), (12, 200))):
+    for depth, num in (((3, 200), (6, 100)) if quick else ((6, 400), (8, 400), (12, 200))):
         name = "Gen_Regions_sim_%d.cfg" % depth
         src = open(os.path.join(ctx._specdir(), "Gen_Regions_sim.cfg")).read()
         open(os.path.join(ctx._specdir(), name), "w").write(re.sub(r"MaxDepth = \d+", "MaxDepth = %d" % depth, src))
         sims += gen(ctx, name, simulate="num=%d" % num, depth=depth + 1, seed=ctx.seed * 1000 + depth)[:3 * num]
+    life = gen(ctx, "Gen_Regions_life.cfg")      # state change; manifest rewrite; restart; every state change again
     scheds = []
-    for kind, hs in (("d1", d1), ("d2", d2), ("sim", sims)):
-        for h in hs:
-            scheds.append({"id": len(scheds), "top": TOP, "init": h["init"], "ops": h["ops"], "kind": kind})
+    for kind, hs in (("d1", d1), ("d2", d2), ("sim", sims), ("life", life)):
+        for n, h in enumerate(hs):
+            ops = list(h["ops"])
+            s = {"id": len(scheds), "top": TOP, "init": h["init"], "kind": kind}
+            # what the manifest holds must survive a manifest rewrite: every behaviour ends with a rewrite and a restart
+            # (still a behaviour of Regions.tla); every other one instead lets the manifest rewrite itself after each edit
+            if n % 2 == 0:
+                ops += [{"op": "Rewrite"}, {"op": "Reload"}]
+            else:
+                s["autorewrite"] = True
+                ops += [{"op": "Reload"}]
+            s["ops"] = ops
+            scheds.append(s)
     replays = json.load(open(os.path.join(VERIF, "findings", "regions_replays.json")))
     replay_ids = {}
     for rp in replays:
@@ -153,7 +164,7 @@ def run(ctx):
             s = dict(rp["schedule"]); s["id"] = len(scheds); s["top"] = TOP; s["kind"] = "replay"
             replay_ids[s["id"]] = rp["id"]
             scheds.append(s)
-    ctx.log("M2: %d one-op behaviours (all), %d of %d two-op behaviours, %d simulated, %d recorded replays" % (len(d1), len(d2), n_d2, len(sims), len(replay_ids)))
+    ctx.log("M2: %d one-op behaviours (all), %d of %d two-op behaviours, %d simulated, %d lifecycle, %d recorded replays" % (len(d1), len(d2), n_d2, len(sims), len(life), len(replay_ids)))
     traces = run_driver(ctx, scheds)
     order = sorted(traces)
     if len(order) != len(scheds):
@@ -214,12 +225,14 @@ def run(ctx):
         "states": m1.distinct, "transitions": m1.generated, "traces_validated_against_impl": len(tl),
         "evaluations": len(tl), "distinct_nontrivial": len(distinct),
         "rule": "behaviours of Regions.tla: all (starting partition, operation) pairs over 5 boundaries / <=4 regions / both id orders, "
-                "a seeded sample of the two-operation behaviours (thorough only), TLC -simulate behaviours of depth 3-12; each applied to a real Store+manifest; "
+                "a seeded sample of the two-operation behaviours (thorough only), TLC -simulate behaviours of depth 3-12, lifecycle behaviours (state change, manifest "
+                "rewrite, restart, every state change again); each ends with a manifest rewrite (forced, or self-triggered after every edit) and a restart; each applied to a real Store+manifest; "
                 "non-trivial = an applied split or merge followed by a rebuild of the store from the manifest",
         "samples": [{"schedule": scheds[order[-1]], "observations": tl[-1][:6]}],
         "m1": {"cfg": mc, "generated": m1.generated, "distinct": m1.distinct, "depth": m1.depth, "coverage_zero": m1.coverage_zero,
                "asis_model_convicted_by": "PartitionOK"},
-        "one_op_behaviours": len(d1), "two_op_behaviours_run": len(d2), "two_op_behaviours_total": n_d2, "simulated": len(sims),
+        "one_op_behaviours": len(d1), "two_op_behaviours_run": len(d2), "two_op_behaviours_total": n_d2, "simulated": len(sims), "lifecycle_behaviours": len(life),
+        "manifest_rewrites_forced": sum(1 for s_ in scheds for o in s_["ops"] if o["op"] == "Rewrite"), "autorewrite_schedules": sum(1 for s_ in scheds if s_.get("autorewrite")),
         "observations_validated": nevents, "operations_by_kind": opkinds, "rejected_observations": len(rejected),
         "known_finding_hits": classes, "negative_control": "rejected as required",
         "checker_cmd": "tlc -config %s Regions.tla ; tlc -config RegionsPropTrace.cfg RegionsPropTrace.tla" % mc,
